@@ -1259,6 +1259,28 @@ def arrays_package(namespace="Arr"):
     return pkg
 
 
+def pair_alias_defs():
+    """generic aliases of the generic record Pair<A, B> (declared by the caller) that do not simply pass on their own parameters, and a protocol using them"""
+    P = lambda n: ("prim", n)
+    defs = []
+    # generic aliases of a generic record that do not simply pass on their own parameters: some closed, swapped, repeated, nested
+    N_ = lambda n, *a: ("named", n, list(a))
+    T_ = lambda n: ("tparam", n)
+    defs.append({"kind": "alias", "name": "PairHalf", "tparams": ["T"], "type": N_("Pair", P("int32"), T_("T"))})
+    defs.append({"kind": "alias", "name": "PairSwap", "tparams": ["A", "B"], "type": N_("Pair", T_("B"), T_("A"))})
+    defs.append({"kind": "alias", "name": "PairTwice", "tparams": ["T"], "type": N_("Pair", T_("T"), T_("T"))})
+    defs.append({"kind": "alias", "name": "PairNest", "tparams": ["T"], "type": N_("Pair", N_("Pair", T_("T"), P("string")), ("vec", T_("T"), None))})
+    defs.append({"kind": "alias", "name": "PairSame", "tparams": ["A", "B"], "type": N_("Pair", T_("A"), T_("B"))})
+    defs.append({"kind": "alias", "name": "PairHalfAgain", "tparams": ["U"], "type": N_("PairHalf", T_("U"))})
+    defs.append({"kind": "record", "name": "WithPairAliases", "tparams": [],
+                     "fields": [("h", N_("PairHalf", P("string"))), ("s", N_("PairSwap", P("string"), P("uint8"))), ("t", N_("PairTwice", P("float32"))),
+                                ("n", N_("PairNest", P("int16"))), ("hh", N_("PairHalf", N_("PairHalf", P("bool")))), ("g", N_("PairHalfAgain", P("float64")))]})
+    defs.append({"kind": "protocol", "name": "PPairAliases", "steps": [
+        ("half", N_("PairHalf", P("string")), False), ("swaps", N_("PairSwap", P("string"), P("uint8")), True), ("twice", N_("PairTwice", P("float32")), False),
+        ("nests", N_("PairNest", P("int16")), True), ("same", N_("PairSame", P("uint16"), P("string")), False), ("recs", N_("WithPairAliases"), True)]})
+    return defs
+
+
 def directed_package(namespace="Dir"):
     """A fixed package that systematically crosses type constructors with element types, so that
     coverage of the (constructor x primitive) matrix does not depend on luck."""
@@ -1341,6 +1363,7 @@ def directed_package(namespace="Dir"):
         ("frames", ("named", "Frame", []), True),
         ("images", ("named", "Img", [P("float64")]), True),
         ("pairs", ("named", "Pair", [("named", "Img", [P("uint8")]), ("vec", ("named", "Pix", []), None)]), True)]})
+    pkg.defs.extend(pair_alias_defs())
     # streams whose items have a fixed-size encoding (scalars, flat records): the writers have raw-memory paths for batches of them
     pkg.defs.append({"kind": "protocol", "name": "PFixedItems", "steps": [("pixs", ("named", "Pix", []), True), ("mixeds", ("named", "Mixed", []), True), ("floats", P("float32"), True),
                                                                            ("doubles", P("float64"), True), ("bytes", P("uint8"), True), ("n", P("int32"), False)]})
